@@ -558,7 +558,13 @@ func verifGen_session() {
 			s.opRead()
 		case 3:
 			s.trace += "L"
-			l := []int{0, 2, -1}[pick("limit", 3, 1)]
+			l := 0
+			if lean2 {
+				// (two representatives: a limit below every non-empty message, and one between the message lengths)
+				l = []int{2, 0}[vChoose("limit2", 2)]
+			} else {
+				l = []int{0, 2, -1}[vChoose("limit", 3)]
+			}
 			s.c.SetReadLimit(int64(l))
 			s.limit = l
 		case 4:
